@@ -307,7 +307,9 @@ impl SchemaCatalog {
         let content = serde_json::to_string_pretty(self)
             .map_err(|e| SchemaError::IoError(format!("Failed to serialize schemas: {e}")))?;
 
-        fs::write(path, content)
+        // Atomic replace: a crash while saving must leave the old or the new catalog, never a
+        // truncated file (which would be loaded as an empty catalog, silently dropping schemas).
+        crate::storage::metadata::write_file_atomic(path, content.as_bytes())
             .map_err(|e| SchemaError::IoError(format!("Failed to write schema catalog: {e}")))?;
 
         Ok(())
